@@ -104,16 +104,36 @@ def gen_array(rng, dtype=None, n=None):
     import numpy as np
 
     dtype = dtype or rng.choice(NP_DTYPES)
+    shaped = n is None
     n = rng.choice([0, 1, 2, 5, 17, 17, 900, 9000]) if n is None else n  # up to 72 KB: oversize for small caches
     if dtype == "bool":
-        return np.array([rng.random() < 0.5 for _ in range(n)], dtype=dtype)
-    if dtype.startswith("int"):
+        arr = np.array([rng.random() < 0.5 for _ in range(n)], dtype=dtype)
+    elif dtype.startswith("int"):
         info = np.iinfo(dtype)
         vals = [rng.choice([info.min, info.max, 0, 1, -1, rng.randint(-100, 100)]) for _ in range(n)]
-        return np.array(vals, dtype=dtype)
-    vals = [rng.choice([0.0, -0.0, 1.5, float("nan"), float("inf"), rng.uniform(-10, 10)])
-            for _ in range(n)]
-    return np.array(vals, dtype=dtype)
+        arr = np.array(vals, dtype=dtype)
+    else:
+        vals = [rng.choice([0.0, -0.0, 1.5, float("nan"), float("inf"), rng.uniform(-10, 10)])
+                for _ in range(n)]
+        arr = np.array(vals, dtype=dtype)
+    if not shaped:
+        return arr
+    # shapes and memory layouts other than "one dimension, contiguous": zero-dimensional, two- and three-dimensional
+    # (also with an empty axis), Fortran order, strided views of a larger array
+    how = rng.choice(["1d", "1d", "1d", "0d", "2d", "2d", "3d", "fortran", "strided", "empty_axis"])
+    if how == "0d":
+        return np.array(arr[0] if n else arr.dtype.type(1))
+    if how in ("2d", "fortran") and n >= 2:
+        k = 2 if n % 2 == 0 else (n if n < 4 else 1)
+        out = arr[: (n // k) * k].reshape((n // k, k))
+        return np.asfortranarray(out) if how == "fortran" else out
+    if how == "3d" and n >= 4:
+        return arr[: (n // 4) * 4].reshape((n // 4, 2, 2))
+    if how == "strided" and n >= 2:
+        return arr[::2] if rng.random() < 0.5 else arr[::-1]
+    if how == "empty_axis":
+        return arr[:0].reshape((0, 3)) if rng.random() < 0.5 else arr[:0].reshape((2, 0))
+    return arr
 
 
 def gen_pandas(rng, kind=None):
